@@ -460,3 +460,157 @@ def gen_expr(repo, res):
             (arr, idx), va, vb = d
             res.fail(key, f"`{label}`: generated code leaves {arr}{list(idx)} = {_show(vb)}; expected {_show(va)} "
                      "(layout A[point][component][argument dof])", m.line(g.node))
+
+
+# ---- GEN-FORM: both form-descriptor generators interpreted on sample FormIR -----------------------------------
+
+@rule(
+    "GEN-FORM",
+    ["C06", "C18"],
+    "C/form.py and numba/form.py `generator` (with common.integral_data) are interpreted from source on sample FormIR "
+    "records (unsorted subdomain ids, the default integral, groups with two cell types, empty types, coefficients that "
+    "dropped out, scalar and tensor constants, a missing element hash). The emitted text is read back: offsets must be "
+    "the exclusive prefix sums of kernels per type in ufcx.h enum order, form_integrals / form_integral_ids one entry per "
+    "(group, cell type) in ascending id order with each kernel named <integral>_<cell type> next to its own id, declared "
+    "array sizes equal the entry counts, the remaining descriptor arrays pass the IR through, and both backends agree",
+    min_instances=9,
+)
+def gen_form(repo, res):
+    import re
+    import string
+
+    def argsort(ids):
+        return sorted(range(len(ids)), key=lambda i: ids[i])
+
+    dom = lambda n: Node("CellType", name=n)  # noqa: E731
+    types = ["cell", "exterior_facet", "interior_facet", "vertex", "ridge"]
+    samples = {
+        "prism form: unsorted ids, default integrals, two facet types per group": Node(
+            "FormIR", id=0, name="form_abc", signature="sig", rank=2, num_coefficients=2, name_from_uflfile="a", original_coefficient_positions=[0, 2],
+            coefficient_names=["f", "g"], num_constants=2, constant_ranks=[0, 2], constant_shapes=[[], [2, 3]], constant_names=["c0", "c1"],
+            finite_element_hashes=[11, None],
+            integral_names={"cell": ["ic_b", "ic_a"], "exterior_facet": ["ie_7", "ie_3", "ie_o"], "interior_facet": [], "vertex": ["iv"], "ridge": []},
+            integral_domains={"cell": [[dom("prism")], [dom("prism")]], "exterior_facet": [[dom("triangle"), dom("quadrilateral")]] * 3, "interior_facet": [],
+                              "vertex": [[dom("point")]], "ridge": []},
+            subdomain_ids={"cell": [5, -1], "exterior_facet": [7, 3, -1], "interior_facet": [], "vertex": [-1], "ridge": []}),
+        "functional without coefficients and constants, interior facets only": Node(
+            "FormIR", id=1, name="form_q", signature="s2", rank=0, num_coefficients=0, name_from_uflfile="M", original_coefficient_positions=[],
+            coefficient_names=[], num_constants=0, constant_ranks=[], constant_shapes=[], constant_names=[], finite_element_hashes=[],
+            integral_names={"cell": [], "exterior_facet": [], "interior_facet": ["ii_2", "ii_1", "ii_9"], "vertex": [], "ridge": ["ir"]},
+            integral_domains={"cell": [], "exterior_facet": [], "interior_facet": [[dom("interval")]] * 3, "vertex": [], "ridge": [[dom("point")]]},
+            subdomain_ids={"cell": [], "exterior_facet": [], "interior_facet": [2, 1, 9], "vertex": [], "ridge": [4]}),
+    }
+    samples["two meshes: one subdomain id used by two integral groups of a type"] = Node(
+        "FormIR", id=2, name="form_r", signature="s3", rank=1, num_coefficients=1, name_from_uflfile="L", original_coefficient_positions=[1],
+        coefficient_names=["f"], num_constants=0, constant_ranks=[], constant_shapes=[], constant_names=[], finite_element_hashes=[7],
+        integral_names={"cell": ["ic_m2_1", "ic_m1_o", "ic_m1_1"], "exterior_facet": [], "interior_facet": [], "vertex": [], "ridge": []},
+        integral_domains={"cell": [[dom("triangle")], [dom("triangle")], [dom("triangle")]], "exterior_facet": [], "interior_facet": [], "vertex": [], "ridge": []},
+        subdomain_ids={"cell": [1, -1, 1], "exterior_facet": [], "interior_facet": [], "vertex": [], "ridge": []})
+
+    def np_unique(a, return_index=False):
+        vals = sorted(set(a))
+        if return_index:
+            return vals, [list(a).index(v) for v in vals]
+        return vals
+
+    results = {}
+    for be in ("C", "numba"):
+        fm = f"ffcx.codegeneration.{be}.form"
+        it = Interp(repo, load_classes(repo), primary=fm)
+        it.overrides["logger"] = Node("Logger", info=_PyCall(lambda *a: None), debug=_PyCall(lambda *a: None))
+        it.overrides["template_keys"] = _PyCall(lambda t: set(f for _, f, _, _ in string.Formatter().parse(t) if f))
+        it.overrides["np.argsort"] = _PyCall(argsort)
+        it.overrides["np.lexsort"] = _PyCall(lambda keys: sorted(range(len(keys[-1])), key=lambda i: tuple(k[i] for k in reversed(keys))))
+        it.overrides["np.unique"] = _PyCall(np_unique)
+        g = repo.mod(fm).func("generator")
+        res.functions.update({g.key, repo.mod("ffcx.codegeneration.common").func("integral_data").key})
+        for label, ir in samples.items():
+            key = f"{g.key}:{label}"
+            res.ob(key)
+            try:
+                out = it.call_f(g, [copy.deepcopy(ir), {}])
+            except Raised as e:
+                res.fail(key, f"{be} form generator raises ({e.what}) on `{label}`", repo.mod(fm).line(g.node), props=("C06", "C18") if be == "C" else ("C18",))
+                continue
+            text = out[-1] if isinstance(out, tuple) else out
+            if not isinstance(text, str):
+                raise AnalysisError(f"{be} form generator did not return text")
+
+            def arr(name):
+                if be == "C":
+                    mm = re.search(rf"\b{name}_{ir.f['name']}\[(\d+)\] = \{{([^}}]*)\}}", text)
+                    if not mm:
+                        return None, None
+                    return int(mm.group(1)), [x.strip() for x in mm.group(2).split(",") if x.strip()]
+                mm = re.search(rf"\b{name}_{ir.f['name']} = \[([^\]]*)\]", text)
+                if not mm:
+                    return None, None
+                items = [x.strip() for x in mm.group(1).split(",") if x.strip()]
+                return len(items), items
+
+            # specification
+            exp_off, exp_names, exp_ids = [0], [], []
+            for t in types:
+                ids = ir.f["subdomain_ids"][t]
+                order = sorted(range(len(ids)), key=lambda i: ids[i])
+                n = 0
+                for i in order:
+                    for d_ in ir.f["integral_domains"][t][i]:
+                        exp_names.append(f"{ir.f['integral_names'][t][i]}_{d_.f['name']}")
+                        exp_ids.append(ids[i])
+                        n += 1
+                exp_off.append(exp_off[-1] + n)
+            props = ("C06", "C18") if be == "C" else ("C18",)
+            loc = repo.mod(fm).line(g.node)
+            n_off, offs = arr("form_integral_offsets")
+            if offs is None or [int(x) for x in offs] != exp_off or n_off != len(exp_off):
+                res.fail(key, f"{be} `{label}`: form_integral_offsets = {offs} (declared {n_off}), expected {exp_off}", loc, props=props)
+            n_k, kern = arr("form_integrals")
+            n_i, idl = arr("form_integral_ids")
+            if exp_names:
+                got_names = [x.lstrip("&") for x in (kern or [])]
+                got_ids = [int(x) for x in (idl or [])]
+                bad = None
+                if n_k != len(exp_names) or len(got_names) != len(exp_names):
+                    bad = f"form_integrals has {len(got_names)} entries (declared {n_k}), expected {len(exp_names)}: {got_names}"
+                elif n_i != len(exp_ids) or len(got_ids) != len(exp_ids):
+                    bad = f"form_integral_ids = {got_ids} (declared {n_i}) has not one entry per kernel ({len(exp_ids)}: {exp_ids})"
+                else:
+                    for ti in range(len(types)):
+                        lo, hi = exp_off[ti], exp_off[ti + 1]
+                        gp, ep = list(zip(got_ids[lo:hi], got_names[lo:hi])), list(zip(exp_ids[lo:hi], exp_names[lo:hi]))
+                        if sorted(gp) != sorted(ep):
+                            bad = f"{types[ti]} kernels are {gp}, expected the (id, kernel) pairs {ep}"
+                            break
+                        if [g_[0] for g_ in gp] != sorted(g_[0] for g_ in gp):
+                            bad = f"{types[ti]} ids {[g_[0] for g_ in gp]} are not ascending"
+                            break
+                if bad:
+                    res.fail(key, f"{be} `{label}`: {bad} - kernel k must sit next to its own id, grouped by type, ascending", loc, props=props)
+            # pass-through arrays
+            n_p, pos = arr("original_coefficient_position")
+            if ir.f["original_coefficient_positions"] and (pos is None or [int(x) for x in pos] != ir.f["original_coefficient_positions"]):
+                res.fail(key, f"{be} `{label}`: original_coefficient_positions = {pos}, IR has {ir.f['original_coefficient_positions']}", loc, props=props)
+            n_c, cn = arr("coefficient_names")
+            if ir.f["coefficient_names"] and (cn is None or [x.strip('"') for x in cn] != ir.f["coefficient_names"]):
+                res.fail(key, f"{be} `{label}`: coefficient names = {cn}", loc, props=props)
+            n_r, cr = arr("constant_ranks")
+            if ir.f["constant_ranks"] and (cr is None or [int(x) for x in cr] != ir.f["constant_ranks"]):
+                res.fail(key, f"{be} `{label}`: constant ranks = {cr}, IR has {ir.f['constant_ranks']}", loc, props=props)
+            n_h, hs = arr("finite_element_hashes")
+            if ir.f["finite_element_hashes"]:
+                want_h = [0 if h is None else h for h in ir.f["finite_element_hashes"]]
+                got_h = [int(re.sub(r"UINT64_C\((\d+)\)", r"\1", x)) for x in (hs or [])]
+                if got_h != want_h:
+                    res.fail(key, f"{be} `{label}`: finite_element_hashes = {hs}, expected {want_h}", loc, props=props)
+            for fld, val in (("rank", ir.f["rank"]), ("num_coefficients", ir.f["num_coefficients"]), ("num_constants", ir.f["num_constants"])):
+                pat = rf"\.{fld} = {val}\b" if be == "C" else rf"\b{fld} = {val}\b"
+                if not re.search(pat, text):
+                    res.fail(key, f"{be} `{label}`: descriptor field {fld} is not {val}", loc, props=props)
+            results[(be, label)] = (offs, sorted(zip([int(x) for x in (idl or [])], [x.lstrip("&") for x in (kern or [])])) if idl and kern and len(idl) == len(kern) else (idl, kern), pos)
+    for label in samples:
+        key = f"form-generators:agree:{label}"
+        res.ob(key)
+        a, b = results.get(("C", label)), results.get(("numba", label))
+        if a is not None and b is not None and a != b:
+            res.fail(key, f"`{label}`: C emits (offsets, kernels, ids, positions) = {a}, numba emits {b}", "ffcx/codegeneration/numba/form.py", props=("C18",))
